@@ -58,6 +58,27 @@ def Axis.setEnd (a : Axis) (v : Int) : Axis :=
     else if d ≤ a.ext then { a with ext := a.ext - d }
     else { flip := true, pos := v, ext := d - a.ext }
 
+/-- the range of `ST_Coordinate` (offsets) and `ST_PositiveCoordinate` (extents), in EMU -/
+def coordMax : Int := 27273042316900
+def coordMin : Int := -27273042329600
+def inCoord (v : Int) : Bool := decide (coordMin ≤ v) && decide (v ≤ coordMax)
+def inPos (v : Int) : Bool := decide (0 ≤ v) && decide (v ≤ coordMax)
+
+/-- an axis all of whose stored values lie in their XML types -/
+def Axis.writable (a : Axis) : Bool := inCoord a.pos && inPos a.ext
+
+/-- `Connector._validate_span(new, other)`: the offset (the lesser end) and the extent (their distance) of the
+    connector that would result can be written -/
+def spanOk (new other : Int) : Bool := inCoord (min new other) && inPos (iabs (new - other))
+
+/-- the begin setter as the library runs it: `none` (a `ValueError`, NOTHING changed) unless the new coordinate and
+    the resulting span can be written -/
+def Axis.setBeginChecked (a : Axis) (v : Int) : Option Axis :=
+  if inCoord v && spanOk v a.endPt then some (a.setBegin v) else none
+
+def Axis.setEndChecked (a : Axis) (v : Int) : Option Axis :=
+  if inCoord v && spanOk v a.beginPt then some (a.setEnd v) else none
+
 /-- `_BaseGroupShapes._add_cxnSp`: one axis from begin and end coordinate -/
 def Axis.new (b e : Int) : Axis :=
   { flip := decide (b > e), pos := min b e, ext := iabs (e - b) }
@@ -76,6 +97,13 @@ def Cxn.step (c : Cxn) : CxnOp → Cxn
   | .beginY v => { c with v := c.v.setBegin v }
   | .endX v => { c with h := c.h.setEnd v }
   | .endY v => { c with v := c.v.setEnd v }
+
+/-- one checked assignment: the connector is unchanged when the assignment is refused -/
+def Cxn.stepChecked (c : Cxn) : CxnOp → Cxn × Bool
+  | .beginX v => match c.h.setBeginChecked v with | some a => ({ c with h := a }, true) | none => (c, false)
+  | .beginY v => match c.v.setBeginChecked v with | some a => ({ c with v := a }, true) | none => (c, false)
+  | .endX v => match c.h.setEndChecked v with | some a => ({ c with h := a }, true) | none => (c, false)
+  | .endY v => match c.v.setEndChecked v with | some a => ({ c with v := a }, true) | none => (c, false)
 
 def Cxn.new (bx by_ ex ey : Int) : Cxn := { h := Axis.new bx ex, v := Axis.new by_ ey }
 
